@@ -1,7 +1,6 @@
 SPECIFICATION TraceSpec
 CONSTANTS
-  Strs <- NoSet
-  Delims <- NoSet
+  Pairs <- NoSet
 INVARIANTS WindowInv Refines RemainderInv InitialSeqs EndsAgree
 CONSTRAINT Progress
 POSTCONDITION Accepted
